@@ -22,11 +22,18 @@
 //!   poll <i>               poll the (i mod len)-th entry of the executor's ready list (a task of ANY request)
 //!   drop <r>               fire r's remaining gates, `ps r` (the stream ends with `owner.unset()`, as in `from_app`),
 //!                          drop the stream
+//!   abort <r> <b>          client abort of r: make request b's arena the thread's current one (what polling anything of
+//!                          b does), drop r's response body WITHOUT polling it, then let r's pending fetches finish
 //!   end                    `drop` every remaining started request in ascending order; print observation + verdict
 //! P (no spaces):  L<id> reactive leaf closure | E<id> eager leaf (component body) | C<id> on_cleanup leaf |
 //!   V<k>(P) Provider scope k | S<g>.<pre>.<post>(P) Suspend: pre, await gate g, post, then build P |
 //!   U(P) Suspense | W0(P) Router+FlatRoutes, W1(P) Router+Routes with P as the matched route's view |
 //!   R<g>.<fetch>.<read> Resource (fetcher awaits g, reports) read through Suspend |
+//!   O<v>.<g>.<fetch>.<read> the same through 0 OnceResource, 1 ArcOnceResource, 2 Resource::new_blocking, 3 ArcResource,
+//!     4 OnceResource::new_blocking, 5 AsyncDerived, 6 ArcAsyncDerived, 7 LocalResource (never runs on the server) |
+//!   T<g>.<id> spawn_local_scoped task (awaits g, reports) | D<g>.<id> Action::new + dispatch (its future awaits g, reports) |
+//!   I<id> Effect::new_isomorphic reporting | A<g>.<id> RwSignal + StoredValue allocated in the current (child) owner and
+//!   read after awaiting g (prints v<whose signal>/<whose stored value>) |
 //!   F<n>.<id> For over 0..n | Q(P,P,..) fragment
 //! Every leaf reports `(program's request, leaf id, Tag seen via use_context, per-request signal value,
 //! next SerializedDataId of the current shared context)` into the HTML and into a log; an `on_cleanup` leaf
@@ -71,6 +78,19 @@ enum P {
     /// Router: 0 = FlatRoutes, 1 = Routes (nested router); the child is the matched route's view
     W(u32, Box<P>),
     R(u32, u32, u32),
+    /// other APIs that store or spawn a future for the request; (variant, gate, fetch leaf, read leaf):
+    /// 0 OnceResource::new, 1 ArcOnceResource::new, 2 Resource::new_blocking, 3 ArcResource::new,
+    /// 4 OnceResource::new_blocking, 5 AsyncDerived::new, 6 ArcAsyncDerived::new, 7 LocalResource::new (never runs
+    /// on the server: Suspense falls back)
+    O(u32, u32, u32, u32),
+    /// spawn_local_scoped task: await gate, report; the stream waits for it
+    T(u32, u32),
+    /// Action::new + dispatch in the component body: the action future awaits the gate, reports
+    D(u32, u32),
+    /// Effect::new_isomorphic whose body reports
+    I(u32),
+    /// RwSignal + StoredValue allocated in the current (child) owner, read after awaiting the gate
+    A(u32, u32),
     F(u32, u32),
     Q(Vec<P>),
 }
@@ -150,6 +170,30 @@ impl<'a> Parser<'a> {
                 let b = self.num()?;
                 P::R(g, a, b)
             }
+            b'O' => {
+                let v = self.num()?;
+                if v > 7 {
+                    return None;
+                }
+                self.eat(b'.')?;
+                let g = self.num()?;
+                self.eat(b'.')?;
+                let a = self.num()?;
+                self.eat(b'.')?;
+                let b = self.num()?;
+                P::O(v, g, a, b)
+            }
+            b'T' | b'D' | b'A' => {
+                let g = self.num()?;
+                self.eat(b'.')?;
+                let a = self.num()?;
+                match c {
+                    b'T' => P::T(g, a),
+                    b'D' => P::D(g, a),
+                    _ => P::A(g, a),
+                }
+            }
+            b'I' => P::I(self.num()?),
             b'F' => {
                 let n = self.num()?;
                 self.eat(b'.')?;
@@ -190,6 +234,11 @@ fn show_prog(p: &P) -> String {
         P::U(c) => format!("U({})", show_prog(c)),
         P::W(k, c) => format!("W{k}({})", show_prog(c)),
         P::R(g, a, b) => format!("R{g}.{a}.{b}"),
+        P::O(v, g, a, b) => format!("O{v}.{g}.{a}.{b}"),
+        P::T(g, a) => format!("T{g}.{a}"),
+        P::D(g, a) => format!("D{g}.{a}"),
+        P::I(a) => format!("I{a}"),
+        P::A(g, a) => format!("A{g}.{a}"),
         P::F(n, a) => format!("F{n}.{a}"),
         P::Q(v) => format!("Q({})", v.iter().map(show_prog).collect::<Vec<_>>().join(",")),
     }
@@ -201,7 +250,7 @@ fn gates_of(p: &P, out: &mut Vec<u32>) {
             out.push(*g);
             gates_of(c, out)
         }
-        P::R(g, _, _) => out.push(*g),
+        P::R(g, _, _) | P::O(_, g, _, _) | P::T(g, _) | P::D(g, _) | P::A(g, _) => out.push(*g),
         P::V(_, c) | P::U(c) | P::W(_, c) => gates_of(c, out),
         P::Q(v) => v.iter().for_each(|c| gates_of(c, out)),
         _ => {}
@@ -224,6 +273,8 @@ struct Rec {
     sig: Option<u32>,
     did: Option<usize>,
     cleanup: bool,
+    /// `A` leaves: what the RwSignal / StoredValue allocated before the await hold after it
+    arena_read: Option<String>,
 }
 
 static LOG: Mutex<Vec<Rec>> = Mutex::new(Vec::new());
@@ -239,7 +290,7 @@ fn report(env: &Env, leaf: u32, take_id: bool) -> String {
     let tag = use_context::<Tag>().map(|t| (t.req, t.scope));
     let sig = env.sig.try_get_untracked();
     let did = if take_id { Owner::current_shared_context().map(|sc| sc.next_id().into_inner()) } else { None };
-    let rec = Rec { me: env.me, leaf, tag, sig, did, cleanup: false };
+    let rec = Rec { me: env.me, leaf, tag, sig, did, cleanup: false, arena_read: None };
     let s = format!(
         "[L{}:t{}:s{}:d{}]",
         leaf,
@@ -272,7 +323,7 @@ fn build(p: &P, env: &Env) -> AnyView {
             // per-request signal (arena item) instead.
             on_cleanup(move || {
                 let sig = env.sig.try_get_untracked();
-                LOG.lock().unwrap().push(Rec { me: env.me, leaf: id, tag: None, sig, did: None, cleanup: true });
+                LOG.lock().unwrap().push(Rec { me: env.me, leaf: id, tag: None, sig, did: None, cleanup: true, arena_read: None });
             });
             ().into_any()
         }
@@ -340,6 +391,119 @@ fn build(p: &P, env: &Env) -> AnyView {
                 let v = res.await;
                 let s = report(&env, read, true);
                 view! { <i>{v}{s}</i> }
+            })
+            .into_any()
+        }
+        P::O(v, g, fetch, read) => {
+            let (envf, v, g, fetch, read) = (env.clone(), *v, *g, *fetch, *read);
+            let fetcher = move || {
+                let env = envf.clone();
+                async move {
+                    if let Some(rx) = take_gate(&env, g) {
+                        let _ = rx.await;
+                    }
+                    report(&env, fetch, true)
+                }
+            };
+            let env = env.clone();
+            macro_rules! read_view {
+                ($res:expr) => {{
+                    let res = $res;
+                    Suspend::new(async move {
+                        let v = res.await;
+                        let s = report(&env, read, true);
+                        view! { <i>{v}{s}</i> }
+                    })
+                    .into_any()
+                }};
+            }
+            match v {
+                0 => read_view!(OnceResource::new(fetcher())),
+                1 => read_view!(ArcOnceResource::new(fetcher())),
+                2 => read_view!(Resource::new_blocking(|| (), move |_| fetcher())),
+                3 => read_view!(ArcResource::new(|| (), move |_| fetcher())),
+                4 => read_view!(OnceResource::new_blocking(fetcher())),
+                5 => read_view!(AsyncDerived::new(move || fetcher())),
+                6 => read_view!(ArcAsyncDerived::new(move || fetcher())),
+                _ => {
+                    let res = LocalResource::new(move || fetcher());
+                    Suspend::new(async move {
+                        let v = res.await;
+                        let s = report(&env, read, true);
+                        view! { <i>{v}{s}</i> }
+                    })
+                    .into_any()
+                }
+            }
+        }
+        P::T(g, id) | P::D(g, id) => {
+            let (envt, g, id) = (env.clone(), *g, *id);
+            let (dtx, drx) = oneshot::channel::<()>();
+            let dtx = Arc::new(Mutex::new(Some(dtx)));
+            let body = move || {
+                let (env, dtx) = (envt.clone(), dtx.clone());
+                async move {
+                    if let Some(rx) = take_gate(&env, g) {
+                        let _ = rx.await;
+                    }
+                    report(&env, id, true);
+                    if let Some(tx) = dtx.lock().unwrap().take() {
+                        let _ = tx.send(());
+                    }
+                }
+            };
+            if matches!(p, P::T(..)) {
+                leptos::task::spawn_local_scoped(body());
+            } else {
+                let action = Action::new(move |_: &()| body());
+                action.dispatch(());
+            }
+            // the response waits for the background work (otherwise when it runs relative to the end of the
+            // stream would be a race of the program itself)
+            Suspend::new(async move {
+                let _ = drx.await;
+                ""
+            })
+            .into_any()
+        }
+        P::I(id) => {
+            let (enve, id) = (env.clone(), *id);
+            let (dtx, drx) = oneshot::channel::<()>();
+            let dtx = Mutex::new(Some(dtx));
+            Effect::new_isomorphic(move |_| {
+                report(&enve, id, true);
+                if let Some(tx) = dtx.lock().unwrap().take() {
+                    let _ = tx.send(());
+                }
+            });
+            Suspend::new(async move {
+                let _ = drx.await;
+                ""
+            })
+            .into_any()
+        }
+        P::A(g, id) => {
+            let (env, g, id) = (env.clone(), *g, *id);
+            // arena items registered with the CURRENT owner: a child owner when under Suspense / Provider / Router
+            let sig2 = RwSignal::new(100 + env.me);
+            let sv = StoredValue::new(200 + env.me);
+            Suspend::new(async move {
+                if let Some(rx) = take_gate(&env, g) {
+                    let _ = rx.await;
+                }
+                let a = sig2.try_get_untracked().map(|v| (v as i64 - 100).to_string()).unwrap_or("-".into());
+                let b = sv.try_get_value().map(|v| (v as i64 - 200).to_string()).unwrap_or("-".into());
+                let seen = format!("v{a}/{b}");
+                LOG.lock().unwrap().push(Rec {
+                    me: env.me,
+                    leaf: id,
+                    tag: None,
+                    sig: None,
+                    did: None,
+                    cleanup: false,
+                    arena_read: Some(seen.clone()),
+                });
+                format!("[A{id}:{seen}]")
             })
             .into_any()
         }
@@ -425,6 +589,8 @@ enum Act {
     Ps,
     Poll(usize), // local index among this request's tasks
     Finish,
+    /// client abort while request `.0`'s arena is the thread's current one
+    Abort(u32),
 }
 
 struct Req {
@@ -434,6 +600,9 @@ struct Req {
     gates: Vec<u32>,
     started: bool,
     dropped: bool,
+    aborted: bool,
+    /// polling it does what polling any `Sandboxed` future of this request does first: make its arena current
+    arena_setter: Option<Pin<Box<dyn Future<Output = ()>>>>,
     stream: Option<PinnedStream<String>>,
     stream_done: bool,
     html: String,
@@ -454,6 +623,8 @@ impl Req {
             gates,
             started: false,
             dropped: false,
+            aborted: false,
+            arena_setter: None,
             stream: None,
             stream_done: false,
             html: String::new(),
@@ -535,6 +706,12 @@ impl World {
             #[cfg(feature = "sandbox")]
             let body = leptos::reactive::owner::Sandboxed::new(body);
             q.stream = Some(Box::pin(body));
+            // created while this request's arena is current (just set by the `Sandboxed` build_response future)
+            #[cfg(feature = "sandbox")]
+            {
+                q.arena_setter =
+                    Some(Box::pin(leptos::reactive::owner::Sandboxed::new(std::future::pending::<()>())));
+            }
             q.started = true;
         });
         self.reqs[r].acts.push(Act::Start);
@@ -673,6 +850,42 @@ impl World {
     }
 }
 
+impl World {
+    /// the client of request r goes away: the server drops the response body WITHOUT polling it, on a thread
+    /// whose current arena is request b's (whatever was polled there last).  The pending fetches of r then
+    /// complete in the background.
+    fn abort(&mut self, r: usize, b_me: u32) {
+        self.guarded(r, |w| {
+            if let Some(bq) = w.reqs.iter_mut().find(|q| q.me == b_me) {
+                if let Some(f) = bq.arena_setter.as_mut() {
+                    let w2 = sched::noop_waker();
+                    let mut cx = Context::from_waker(&w2);
+                    let _ = f.as_mut().poll(&mut cx);
+                }
+            }
+            let q = &mut w.reqs[r];
+            q.stream = None;
+        });
+        for g in self.reqs[r].gates.clone() {
+            if !self.reqs[r].fired.contains(&g) {
+                self.guarded(r, |w| {
+                    let q = &mut w.reqs[r];
+                    q.fired.insert(g);
+                    if let Some(tx) = q.txs.remove(&g) {
+                        let _ = tx.send(());
+                    }
+                });
+            }
+        }
+        self.run_own_tasks(r);
+        self.guarded(r, |w| w.reqs[r].txs.clear());
+        self.run_own_tasks(r);
+        self.reqs[r].dropped = true;
+        self.reqs[r].aborted = true;
+        self.reqs[r].acts.push(Act::Abort(b_me));
+    }
+}
+
 fn solo(me: u32, ooo: bool, prog: &P, acts: &[Act]) -> (String, Vec<Rec>, bool, bool) {
     sched::reset();
     LOG.lock().unwrap().clear();
@@ -685,6 +898,7 @@ fn solo(me: u32, ooo: bool, prog: &P, acts: &[Act]) -> (String, Vec<Rec>, bool, 
             Act::Ps => w.ps(0),
             Act::Poll(k) => w.poll_task(0, *k),
             Act::Finish => w.finish(0),
+            Act::Abort(b) => w.abort(0, *b),
         }
     }
     let log = std::mem::take(&mut *LOG.lock().unwrap());
@@ -703,7 +917,9 @@ fn show_tag(t: &Option<(u32, u32)>) -> String {
 fn observation(r: u32, log: &[Rec]) -> String {
     let mut m: BTreeMap<u32, BTreeSet<String>> = BTreeMap::new();
     for x in log.iter().filter(|x| x.me == r) {
-        let seen = if x.cleanup {
+        let seen = if let Some(v) = &x.arena_read {
+            v.clone()
+        } else if x.cleanup {
             // a cleanup leaf reports whose arena it saw (the per-request signal holds 10 + request)
             x.sig.map(|v| format!("a{}", v as i64 - 10)).unwrap_or("a-".into())
         } else {
@@ -761,6 +977,26 @@ fn prog_tags(p: &P, under_async: bool, out: &mut BTreeSet<&'static str>) {
         P::R(..) => {
             out.insert("resource");
         }
+        P::O(v, ..) => {
+            out.insert(match v {
+                0 | 1 | 4 => "once-resource",
+                2 | 3 => "resource",
+                5 | 6 => "async-derived",
+                _ => "local-resource",
+            });
+        }
+        P::T(..) => {
+            out.insert("spawn-scoped");
+        }
+        P::D(..) => {
+            out.insert("action");
+        }
+        P::I(..) => {
+            out.insert("effect");
+        }
+        P::A(..) => {
+            out.insert("arena-alloc");
+        }
         P::F(..) => {
             out.insert("for");
         }
@@ -774,7 +1010,7 @@ fn prog_tags(p: &P, under_async: bool, out: &mut BTreeSet<&'static str>) {
 fn exposed(p: &P, late: bool, covered: bool) -> bool {
     match p {
         P::L(_) | P::F(..) => late && !covered,
-        P::E(_) | P::C(_) | P::R(..) => false,
+        P::E(_) | P::C(_) | P::R(..) | P::O(..) | P::T(..) | P::D(..) | P::I(_) | P::A(..) => false,
         P::V(_, c) | P::W(_, c) => exposed(c, late, true),
         P::U(_) => false,
         P::S(_, _, _, c) => exposed(c, true, false),
@@ -786,8 +1022,8 @@ fn exposed(p: &P, late: bool, covered: bool) -> bool {
 /// Suspense: `OwnedView::to_html_async_with_buf` parks its owner in the AMBIENT owner's cleanups)
 fn late_kind(p: &P, late: bool, out: &mut BTreeSet<&'static str>) {
     match p {
-        P::L(_) | P::F(..) | P::E(_) | P::C(_) => {}
-        P::R(..) => {
+        P::L(_) | P::F(..) | P::E(_) | P::C(_) | P::I(_) => {}
+        P::R(..) | P::O(..) | P::T(..) | P::D(..) | P::A(..) => {
             if late {
                 out.insert("late-resource");
             }
@@ -881,6 +1117,15 @@ fn op(c: &mut Case, line: &str) -> String {
             c.w.finish(r);
             "ok".into()
         }
+        ["abort", r, b] => {
+            let (Some(r), Some(b)) = (idx(r, c), idx(b, c)) else { return "bad-op".into() };
+            let ok = |q: &Req| q.started && !q.dropped;
+            if !ok(&c.w.reqs[r]) || !ok(&c.w.reqs[b]) {
+                return "bad-op".into();
+            }
+            c.w.abort(r, b as u32);
+            "ok".into()
+        }
         ["end"] => {
             for r in 0..c.w.reqs.len() {
                 if c.w.reqs[r].started && !c.w.reqs[r].dropped {
@@ -894,29 +1139,30 @@ fn op(c: &mut Case, line: &str) -> String {
             if c.w.panicked {
                 bad.push("panic".to_string());
             }
-            let info: Vec<(bool, P, Vec<Act>, String, bool, bool)> = c
+            let info: Vec<(bool, P, Vec<Act>, String, bool, bool, bool)> = c
                 .w
                 .reqs
                 .iter_mut()
-                .map(|q| (q.ooo, q.prog.clone(), q.acts.clone(), std::mem::take(&mut q.html), q.stream_done, q.started))
+                .map(|q| (q.ooo, q.prog.clone(), q.acts.clone(), std::mem::take(&mut q.html), q.stream_done, q.started, q.aborted))
                 .collect();
             c.w.reqs.clear();
             sched::reset();
-            for (r, (ooo, prog, acts, html, done, started)) in info.iter().enumerate() {
+            for (r, (ooo, prog, acts, html, done, started, aborted)) in info.iter().enumerate() {
                 if !*started {
                     continue;
                 }
-                obs.push(observation(r as u32, &log));
+                // an aborted response is truncated wherever the abort fell: only the oracle looks at it
+                obs.push(if *aborted { format!("r{r}:aborted") } else { observation(r as u32, &log) });
                 let (shtml, slog, sdone, spanic) = solo(r as u32, *ooo, prog, acts);
                 let mine: Vec<Rec> = log.iter().filter(|x| x.me == r as u32).cloned().collect();
                 let alone: Vec<Rec> = slog;
                 if std::env::var("C20_DEBUG").is_ok() {
                     eprintln!("r{r} conc: {html}\nr{r} solo: {shtml}\n conc log {mine:?}\n solo log {alone:?}\n acts {acts:?}");
                 }
-                if !*done {
+                if !*done && !*aborted {
                     bad.push(format!("r{r}:incomplete"));
                 }
-                if spanic || !sdone {
+                if spanic || (!sdone && !*aborted) {
                     bad.push(format!("r{r}:solo-broken"));
                 }
                 if *html != shtml {
@@ -965,6 +1211,11 @@ fn main() {
                     ["drop", ..] => {
                         if let Some(t) = case_tags.last_mut() {
                             t.insert("early-drop");
+                        }
+                    }
+                    ["abort", ..] => {
+                        if let Some(t) = case_tags.last_mut() {
+                            t.insert("abort");
                         }
                     }
                     _ => {}
@@ -1033,6 +1284,20 @@ impl G {
             _ => P::F(self.rng.range(1, 3) as u32, self.leaf()),
         }
     }
+    /// every API that stores or spawns a future for the request, as a leaf whose future reports AFTER an await
+    fn async_leaf(&mut self, c: Gc, allow_u: bool) -> P {
+        match self.rng.below(12) {
+            0..=1 => P::R(self.gate(), self.leaf(), self.leaf()),
+            2..=5 => P::O(self.rng.below(7) as u32, self.gate(), self.leaf(), self.leaf()),
+            6 if allow_u => P::U(Box::new(P::O(7, self.gate(), self.leaf(), self.leaf()))),
+            6..=7 => P::T(self.gate(), self.leaf()),
+            8..=9 => P::A(self.gate(), self.leaf()),
+            10 => P::I(self.leaf()),
+            // an Action dispatched while rendering: its future is spawned unscoped (known class F-C20-3)
+            _ if !c.safe => P::D(self.gate(), self.leaf()),
+            _ => P::A(self.gate(), self.leaf()),
+        }
+    }
     fn prog(&mut self, depth: u32, c: Gc) -> P {
         if depth == 0 {
             return self.sync_leaf(c);
@@ -1040,8 +1305,10 @@ impl G {
         let allow_s = !c.in_susp_suspend && !(c.late && c.late_under_v);
         let allow_r = !c.in_susp_suspend;
         let allow_u = !c.no_u;
-        match self.rng.below(14) {
+        match self.rng.below(17) {
             0..=1 => self.sync_leaf(c),
+            14..=16 if allow_r => self.async_leaf(c, allow_u),
+            14..=16 => self.sync_leaf(c),
             2..=3 => {
                 let k = self.rng.range(1, 9) as u32;
                 let mut c2 = c;
@@ -1082,11 +1349,26 @@ impl G {
     }
 }
 
+fn action_gates(p: &P, out: &mut Vec<u32>) {
+    match p {
+        P::D(g, _) => out.push(*g),
+        P::S(_, _, _, c) | P::V(_, c) | P::U(c) | P::W(_, c) => action_gates(c, out),
+        P::Q(v) => v.iter().for_each(|c| action_gates(c, out)),
+        _ => {}
+    }
+}
+
 fn gen_case(rng: &mut Rng, name: &str, out: &mut String, tier: &str) {
     let nreq = if rng.chance(7, 10) { 2 } else { 3 };
     let safe = rng.chance(2, 3);
     let mut progs = vec![];
+    let mut has_cleanup = vec![];
+    let mut no_abort = vec![];
     out.push_str(&format!("case {name}\n"));
+    // one case in three renders the SAME page for every request: the same sequence of arena keys, context types
+    // and SerializedDataIds in every request, so that anything looked up in the wrong request finds something
+    let same = rng.chance(1, 3);
+    let mut first: Option<P> = None;
     for r in 0..nreq {
         let mut g = G { rng: rng.clone(), leaf: 0, gate: 0 };
         let depth = if tier == "thorough" { rng.range(1, 4) } else { rng.range(1, 3) } as u32;
@@ -1096,11 +1378,25 @@ fn gen_case(rng: &mut Rng, name: &str, out: &mut String, tier: &str) {
         if rng.chance(1, 4) {
             p = P::W(rng.below(2) as u32, Box::new(p));
         }
+        if same {
+            p = first.get_or_insert(p).clone();
+        }
         let mode = if rng.chance(1, 2) { "io" } else { "ooo" };
         out.push_str(&format!("req {r} {mode} {}\n", show_prog(&p)));
         let mut gs = vec![];
         gates_of(&p, &mut gs);
+        // the gate of an Action is only fired by drop/abort/end (when its unscoped future runs is then determinate)
+        let mut dg = vec![];
+        action_gates(&p, &mut dg);
+        gs.retain(|g| !dg.contains(g));
         progs.push(gs);
+        let mut t = BTreeSet::new();
+        prog_tags(&p, false, &mut t);
+        late_kind(&p, false, &mut t);
+        // no client abort for a page with an `on_cleanup` (F-C20-4 when the arena is foreign) unless the arena is its
+        // own, nor for one with a Provider/Suspense in a late view (F-C20-2: its owner may outlive the request)
+        has_cleanup.push(t.contains("cleanup"));
+        no_abort.push(t.contains("late-provider") || t.contains("late-suspense") || t.contains("late-router"));
     }
     // schedule
     let mut started = vec![false; nreq];
@@ -1130,9 +1426,16 @@ fn gen_case(rng: &mut Rng, name: &str, out: &mut String, tier: &str) {
             }
             0..=7 => out.push_str(&format!("poll {}\n", rng.below(4))),
             8..=10 => out.push_str(&format!("ps {r}\n")),
-            _ => {
+            _ if no_abort[r] || rng.chance(1, 2) => {
                 dropped[r] = true;
                 out.push_str(&format!("drop {r}\n"));
+            }
+            _ => {
+                // client abort while some request's arena is current; an `on_cleanup` of the aborted request reading
+                // an arena item under a FOREIGN arena is the known class F-C20-4 (per-request arenas only): corpus
+                let b = if has_cleanup[r] { r } else { *rng.pick(&live) };
+                dropped[r] = true;
+                out.push_str(&format!("abort {r} {b}\n"));
             }
         }
     }
@@ -1145,7 +1448,7 @@ fn gen_case(rng: &mut Rng, name: &str, out: &mut String, tier: &str) {
 }
 
 /// exhaustive small scope: for fixed program pairs, ALL interleavings of {start r, fire r 1, ps r} (r = 0, 1) in
-/// which `start r` comes first among r's actions (80 per pair)
+/// which `start r` comes first among r's actions (80 per pair); plus the abort family below
 fn gen_exhaustive(out: &mut String, tier: &str) -> usize {
     let progs: &[(&str, &str, &str, &str)] = &[
         ("io", "Q(L1,S1.2.3(L4))", "io", "Q(L1,S1.2.3(L4))"),
@@ -1156,8 +1459,10 @@ fn gen_exhaustive(out: &mut String, tier: &str) -> usize {
         ("io", "Q(R1.1.2,E3)", "ooo", "Q(S1.1.2(E3),C4)"),
         ("ooo", "U(Q(S1.1.2(E3),F2.4))", "ooo", "Q(V3(L1),S1.2.3(Q(E4,L5)))"),
         ("io", "S1.1.2(U(L3))", "io", "Q(E1,U(S1.2.3(F2.4)))"),
+        ("io", "U(O0.1.2.3)", "ooo", "U(O0.1.2.3)"),
+        ("ooo", "Q(U(O1.1.2.3),T2.4)", "io", "W0(U(O6.1.2.3))"),
     ];
-    let n_pairs = if tier == "thorough" { progs.len() } else { 6 };
+    let n_pairs = if tier == "thorough" { progs.len() } else { 8 };
     let mut count = 0;
     for (t, (m0, p0, m1, p1)) in progs.iter().take(n_pairs).enumerate() {
         // choose which 3 of the 6 slots belong to request 0; each request orders fire/ps both ways
@@ -1188,6 +1493,46 @@ fn gen_exhaustive(out: &mut String, tier: &str) -> usize {
                     out.push_str("end\n");
                     count += 1;
                 }
+            }
+        }
+    }
+    // second family: request 0 is aborted by its client while request 1's arena is current, at every point of
+    // request 1's progress: all interleavings of [start 0, ps 0, abort 0 1] with [start 1, ps 1, fire 1 1, ps 1] in
+    // which `start 1` precedes the abort; same page in both requests (same arena keys), items in child owners
+    let pages = ["U(Q(A1.2,V3(A2.4)))", "W1(Q(V2(A1.1),U(A1.2)))", "Q(U(A1.1),U(O0.2.2.3),T3.4)"];
+    for (t, page) in pages.iter().enumerate() {
+        for mask in 0u32..128 {
+            if mask.count_ones() != 3 {
+                continue;
+            }
+            let a = ["start 0", "ps 0", "abort 0 1"];
+            let b = ["start 1", "ps 1", "fire 1 1", "ps 1"];
+            let (mut ia, mut ib) = (0, 0);
+            let mut lines = vec![];
+            let mut ok = true;
+            for slot in 0..7 {
+                if mask >> slot & 1 == 1 {
+                    if ia == 2 && ib == 0 {
+                        ok = false; // abort before request 1 exists
+                    }
+                    lines.push(a[ia]);
+                    ia += 1;
+                } else {
+                    lines.push(b[ib]);
+                    ib += 1;
+                }
+            }
+            if !ok {
+                continue;
+            }
+            for (m0, m1) in [("io", "io"), ("ooo", "io")] {
+                out.push_str(&format!("case y{t}-{count}\nreq 0 {m0} {page}\nreq 1 {m1} {page}\n"));
+                for l in &lines {
+                    out.push_str(l);
+                    out.push('\n');
+                }
+                out.push_str("end\n");
+                count += 1;
             }
         }
     }
